@@ -342,6 +342,16 @@ func genSpec(extreme bool) *rapid.Generator[*fontSpec] {
 			s.FDMode = weighted(t, "FDMode", 1, 2, 2, 1, 1)
 			s.FDSeed = rapid.Uint64().Draw(t, "FDSeed")
 			s.FDRuns = rapid.IntRange(1, 40).Draw(t, "FDRuns")
+			// many ranges in a range-encoded FDSelect: the range count is a
+			// Card16 (256+ ranges need its high byte), and format 3 stays the
+			// shorter one only while runs average more than three glyphs
+			if nfd >= 2 && weighted(t, "manyFDRanges", 11, 1) == 1 {
+				if s.N < 800 {
+					s.N = rapid.IntRange(800, 3000).Draw(t, "NManyRanges")
+				}
+				s.FDMode = fdRuns
+				s.FDRuns = rapid.IntRange(256, s.N/3-4).Draw(t, "FDRunsMany")
+			}
 		} else {
 			s.NameMode = weighted(t, "NameMode", 2, 1, 1, 1, 2, 2, 3)
 			s.NameSeed = rapid.Uint64().Draw(t, "NameSeed")
